@@ -81,6 +81,17 @@ def info_fp(data: bytes, addr: int = 0x1000):
     return (info.length, tuple((str(getattr(b.type, "name", b.type)), b.target) for b in info.branches))
 
 
+def info_fp_fresh(data: bytes, addr: int = 0x1000):
+    """The same question put to an architecture object that has never answered anything ("EXC" if it raises)."""
+    try:
+        info = SC62015().get_instruction_info(bytes(data), addr)
+    except Exception:  # noqa: BLE001
+        return "EXC"
+    if info is None:
+        return None
+    return (info.length, tuple((str(getattr(b.type, "name", b.type)), b.target) for b in info.branches))
+
+
 def text_fp(data: bytes, addr: int = 0x1000):
     r = ARCH.get_instruction_text(bytes(data), addr)
     if r is None:
